@@ -110,6 +110,79 @@ def cmp_raw(test, pol=True):
     return op, l, r
 
 
+SYM_OPS = {"==", "!=", "is", "is not"}
+
+
+def A(op, l, r):
+    """Canonical comparison atom (op, left, right): blanks removed, `>`/`>=`
+    flipped, operands of symmetric operators in text order."""
+    l, r = l.replace(" ", ""), r.replace(" ", "")
+    if op in (">", ">="):
+        op, l, r = {">": "<", ">=": "<="}[op], r, l
+    if op in SYM_OPS and r < l:
+        l, r = r, l
+    return (op, l, r)
+
+
+def catom(ctx, func, test, pol=True, inline_=True):
+    """Canonical atom of a boolean leaf: A(...) for a comparison, else
+    ('truth', text, polarity)."""
+    if inline_ and ctx is not None and isinstance(test, ast.Name):
+        v = single_def(ctx, func, test)
+        if isinstance(v, (ast.Compare, ast.UnaryOp, ast.BoolOp)):
+            test = v
+    p = cmp_parts(ctx, func, test, pol) if (inline_ and ctx is not None) else cmp_raw(test, pol)
+    if p is None:
+        if isinstance(test, ast.UnaryOp) and isinstance(test.op, ast.Not):
+            return catom(ctx, func, test.operand, not pol, inline_)
+        t = inline(ctx, func, test) if (inline_ and ctx is not None) else text(test)
+        return ("truth", t.replace(" ", ""), pol)
+    return A(*p)
+
+
+def catoms(ctx, func, test, pol=True, inline_=True):
+    """Set of canonical atoms of a conjunction (disjunctions stay one
+    'truth' atom)."""
+    out = set()
+    for t, q in conjuncts(test, pol):
+        if inline_ and ctx is not None and isinstance(t, ast.Name):
+            v = single_def(ctx, func, t)
+            if isinstance(v, ast.BoolOp) or (isinstance(v, ast.UnaryOp)
+                                            and isinstance(v.op, ast.Not)):
+                out |= catoms(ctx, func, v, q, inline_)
+                continue
+        out.add(catom(ctx, func, t, q, inline_))
+    return out
+
+
+def guarded_actions(ctx, func, stmts, base=frozenset()):
+    """[(guard atoms, statement, value expr)] of the simple statements of a
+    block: nested `if`s contribute their (canonical) atoms, a conditional
+    expression at the top of a statement's value is split into its two
+    alternatives.  Loops / with / try are returned as opaque statements."""
+    out = []
+    for st in stmts:
+        if isinstance(st, ast.If):
+            out += guarded_actions(ctx, func, st.body,
+                                   base | frozenset(catoms(ctx, func, st.test, True)))
+            out += guarded_actions(ctx, func, st.orelse,
+                                   base | frozenset(catoms(ctx, func, st.test, False)))
+            continue
+        v = getattr(st, "value", None)
+        if isinstance(st, (ast.AugAssign, ast.Assign, ast.Return, ast.Expr)) and \
+                isinstance(v, ast.IfExp):
+            for pol, alt in ((True, v.body), (False, v.orelse)):
+                out.append((base | frozenset(catoms(ctx, func, v.test, pol)), st, alt))
+        else:
+            out.append((base, st, v))
+    return out
+
+
+def T(text_, pol=True):
+    """Canonical truth atom."""
+    return ("truth", text_.replace(" ", ""), pol)
+
+
 def conjuncts(test, pol=True):
     from .cfg import flatten_conj
     return flatten_conj(test, pol)
